@@ -1,4 +1,4 @@
-import FpgoVerif.Proofs.C04Sets
+import FpgoVerif.Proofs.C04Http
 /-! C04 — the step invariant: executing ANY operation of the alphabet from a well-formed state with valid
     handles gives a well-formed state with valid handles, and for every operation that is not a documented
     mutator (or a write of the caller) the new world is an extension of the old one. -/
@@ -414,6 +414,24 @@ theorem exec_ok (iface : Bool) {st : State} (hi : Inv st) (op : Op) : ExecOk ifa
     simp only [exec]; split
     · have h := setValues_res hi.wf (by assumption : Nat)
       exact execOk_good h.1 _ (new_ok (h := .arr _ false) h.2) _
+    · trivial
+  | hadd h ids =>
+    simp only [exec]; split
+    · rename_i p hp
+      have f := httpAdd_frame ids hi.wf (findStr_lt hi hp)
+      exact ⟨f.wf, ⟨f.arrs.length_le, f.strsLen, f.sets.length_le⟩, none_ok, fun hm => by simp [Op.isMutator] at hm⟩
+    · trivial
+  | hrem h ids =>
+    simp only [exec]; split
+    · rename_i p hp
+      have f := httpRemove_frame ids hi.wf (findStr_lt hi hp)
+      exact ⟨f.wf, ⟨f.arrs.length_le, f.strsLen, f.sets.length_le⟩, none_ok, fun hm => by simp [Op.isMutator] at hm⟩
+    · trivial
+  | hclear h =>
+    simp only [exec]; split
+    · rename_i p hp
+      have f := httpClear_frame hi.wf p
+      exact ⟨f.wf, ⟨f.arrs.length_le, f.strsLen, f.sets.length_le⟩, none_ok, fun hm => by simp [Op.isMutator] at hm⟩
     · trivial
   | bad => trivial
 
